@@ -476,25 +476,26 @@ func (x *Exec) Write(r Ref, off uint64, data []byte, cntField uint32, stable nt.
 		off+cnt >= off && off+cnt <= x.M.Lim.MaxFileSize
 	// a WRITE that must be refused, or that writes nothing, leaves every attribute of the object as it was
 	var before, after nt.GETATTR3res
-	noEffect := r.N != nil && (!want || cnt == 0)
+	live := r.N != nil
 	if err := x.call(func() {
-		if noEffect {
+		if live {
 			before = x.S.API().NFSPROC3_GETATTR(nt.GETATTR3args{Object: r.fh()})
 		}
 		res = x.S.API().NFSPROC3_WRITE(arg)
-		if noEffect {
+		if live && res.Status != nt.NFS3_OK {
+			// refused by the rules or for lack of space: either way nothing may have changed
 			after = x.S.API().NFSPROC3_GETATTR(nt.GETATTR3args{Object: r.fh()})
 		}
 	}); err != nil {
 		return err
 	}
 	scribble(arg.Data) // the request buffer belongs to the transport again (it is reused for the next message)
-	if err := x.status(res.Status, want, r); err != nil {
-		return err
-	}
-	if noEffect && !want && res.Status != nt.NFS3_OK && before.Status == nt.NFS3_OK && (after.Status != nt.NFS3_OK || before.Resok.Obj_attributes != after.Resok.Obj_attributes) {
+	if live && res.Status != nt.NFS3_OK && before.Status == nt.NFS3_OK && (after.Status != nt.NFS3_OK || before.Resok.Obj_attributes != after.Resok.Obj_attributes) {
 		return x.errf("WRITE was refused (status %d) but changed the object's attributes: before %+v, after (status %d) %+v",
 			res.Status, before.Resok.Obj_attributes, after.Status, after.Resok.Obj_attributes)
+	}
+	if err := x.status(res.Status, want, r); err != nil {
+		return err
 	}
 	if !want || !x.LastOK {
 		return nil
